@@ -89,6 +89,12 @@ func registerHTTPModels(in *Interp) {
 		return p.stubs["http.k"]
 	}
 	vxExtra["vxExpectedText"] = func(in *Interp, p *Path, fr *Frame, a []Val, s ssa.CallInstruction) Val { return concStr("TEXT") }
+	vxExtra["vxItemText"] = func(in *Interp, p *Path, fr *Frame, a []Val, s ssa.CallInstruction) Val {
+		if p.branch(asTerm(a[0])) {
+			return concStr("TEXT")
+		}
+		return concStr("DRAFT")
+	}
 	vxExtra["vxFinalTrailingData"] = func(in *Interp, p *Path, fr *Frame, a []Val, s ssa.CallInstruction) Val {
 		p.stubs["final.trailing"] = a[0]
 		return nil
@@ -231,7 +237,7 @@ func registerHTTPModels(in *Interp) {
 				it.f[fieldIndex(itemsT, "Type")] = concStr("message")
 				r := p.concretize(asTerm(ex.f[5].(*ArrayVal).e[i]), 0, 3)
 				it.f[fieldIndex(itemsT, "Role")] = concStr(roles[r%4])
-				it.f[fieldIndex(itemsT, "Content")] = bytesOf(fmt.Sprintf("CONTENT:%d:%d", k, i))
+				it.f[fieldIndex(itemsT, "Content")] = bytesOf(fmt.Sprintf("CONTENT:%d:%d:%t", k, i, i == n-1))
 				items = append(items, it)
 			}
 			res := zero(et).(*StructVal)
@@ -244,11 +250,15 @@ func registerHTTPModels(in *Interp) {
 			i, _ := strconv.Atoi(parts[2])
 			ex := script(p, k)
 			kind := p.concretize(asTerm(ex.f[6].(*ArrayVal).e[i]), 0, 2)
+			itemText := "TEXT" // the final answer sits in the last item; an earlier item carries a draft
+			if len(parts) > 3 && parts[3] == "false" {
+				itemText = "DRAFT"
+			}
 			if isString(et) {
 				if kind != 0 {
 					return fail
 				}
-				ptr.store(concStr("TEXT"))
+				ptr.store(concStr(itemText))
 				return IfaceVal{}
 			}
 			if sl, ok := et.Underlying().(*types.Slice); ok {
@@ -258,7 +268,7 @@ func registerHTTPModels(in *Interp) {
 				pt := p.concretize(asTerm(ex.f[7].(*ArrayVal).e[i]), 0, 2)
 				part := zero(sl.Elem()).(*StructVal)
 				part.f[fieldIndex(sl.Elem(), "Type")] = concStr([]string{"output_text", "text", "other"}[pt%3])
-				part.f[fieldIndex(sl.Elem(), "Text")] = concStr("TEXT")
+				part.f[fieldIndex(sl.Elem(), "Text")] = concStr(itemText)
 				ptr.store(newSlice([]Val{part}))
 				return IfaceVal{}
 			}
